@@ -160,13 +160,13 @@ theorem indexValueAllowed_ok (hc : indexAllowedClass.isSome = true) (v : Str) : 
   | none => rw [h] at hc; cases hc
   | some cls => exact ⟨_, rfl⟩
 
-theorem checkKeyLoop_noPanic (hc : indexAllowedClass.isSome = true) (rw : RWPath) (v : Str) :
-    ∀ (ns vs : List Str), ns.length = vs.length → NoPanic (checkKeyLoop rw v ns vs) := by
+theorem checkKeyLoop_noPanic (hc : indexAllowedClass.isSome = true) (rw : RWPath) (v : Str) (own : Option Nat) :
+    ∀ (ns vs : List Str) (i : Nat), ns.length = vs.length → NoPanic (checkKeyLoop rw v own i ns vs) := by
   intro ns
   induction ns with
-  | nil => intro vs _; simp only [checkKeyLoop]; exact noPanic_refused _ _
+  | nil => intro vs i _; simp only [checkKeyLoop]; exact noPanic_refused _ _
   | cons n r ih =>
-    intro vs hl
+    intro vs i hl
     cases vs with
     | nil => simp at hl
     | cons x xs =>
@@ -179,7 +179,7 @@ theorem checkKeyLoop_noPanic (hc : indexAllowedClass.isSome = true) (rw : RWPath
         simp only
         split
         · exact noPanic_ok _
-        · exact ih xs (by simpa using hl)
+        · exact ih xs (i + 1) (by simpa using hl)
 
 theorem checkKeyValue_noPanic (hc : indexAllowedClass.isSome = true) (path : Str) (rw : RWPath) (v : Str) :
     NoPanic (checkKeyValue path rw v) := by
@@ -189,7 +189,7 @@ theorem checkKeyValue_noPanic (hc : indexAllowedClass.isSome = true) (path : Str
   simp only
   split
   · exact noPanic_ok _
-  · exact checkKeyLoop_noPanic hc rw v ns vs hl
+  · exact checkKeyLoop_noPanic hc rw v _ ns vs 0 hl
 
 /-! ### doUpdateOrReplace, doDelete -/
 
@@ -258,17 +258,12 @@ theorem delPath_noPanic (pl : Plugin) (pfx : Option PathMsg) (p : PathMsg) : NoP
 
 /-! ### the loops of Set -/
 
-/-- no entry of the overrides map lacks its value -/
-def OvNoNil (ov : OvMap) : Prop := ∀ e ∈ ov, e.2 ≠ none
-
-theorem resolveNew_noPanic (env : Env) (ov : OvMap) (t : Str) (h : OvNoNil ov) : NoPanic (resolveNew env ov t) := by
+theorem resolveNew_noPanic (env : Env) (ov : OvMap) (t : Str) : NoPanic (resolveNew env ov t) := by
   unfold resolveNew
   split
   · exact noPanic_refused _ _
   · exact noPanic_refused _ _
   · split
-    · rename_i hg
-      exact absurd rfl (h _ (mapGet_some_mem _ _ _ hg))
     · split
       · exact noPanic_refused _ _
       · exact noPanic_ok _
@@ -276,85 +271,50 @@ theorem resolveNew_noPanic (env : Env) (ov : OvMap) (t : Str) (h : OvNoNil ov) :
       · exact noPanic_refused _ _
       · exact noPanic_ok _
 
-theorem resolveNew_ovNoNil (env : Env) (ov ov' : OvMap) (t : Str) (p : Plugin) (h : OvNoNil ov)
-    (hr : resolveNew env ov t = .ok (p, ov')) : OvNoNil ov' := by
-  unfold resolveNew at hr
-  split at hr
-  · simp at hr
-  · simp at hr
-  · split at hr
-    · simp at hr
-    · split at hr
-      · simp at hr
-      · simp only [Except.ok.injEq, Prod.mk.injEq] at hr
-        rw [← hr.2]; exact h
-    · split at hr
-      · simp at hr
-      · simp only [Except.ok.injEq, Prod.mk.injEq] at hr
-        rw [← hr.2]
-        intro e he
-        rcases List.mem_append.mp he with h1 | h1
-        · exact h e h1
-        · simp only [List.mem_singleton] at h1
-          subst h1
-          simp
-
-theorem getTargetInfo_noPanic (env : Env) (st : SetSt) (t : Str) (h : OvNoNil st.overrides) :
-    NoPanic (getTargetInfo env st t) ∧
-    ∀ st1 ti, getTargetInfo env st t = .ok (st1, ti) → OvNoNil st1.overrides := by
+theorem getTargetInfo_noPanic (env : Env) (st : SetSt) (t : Str) : NoPanic (getTargetInfo env st t) := by
   unfold getTargetInfo
   split
-  · exact ⟨noPanic_ok _, by intro st1 ti hs; cases hs; exact h⟩
-  · have h0 := resolveNew_noPanic env st.overrides t h
-    split
+  · exact noPanic_ok _
+  · split
     · rename_i e he
-      exact ⟨noPanic_of_eq h0 he, by intro st1 ti hs; cases hs⟩
-    · rename_i p ov' hr
-      have hov' := resolveNew_ovNoNil env st.overrides ov' t p h hr
-      exact ⟨noPanic_ok _, by intro st1 ti hs; cases hs; exact hov'⟩
+      exact noPanic_of_eq (resolveNew_noPanic env st.overrides t) he
+    · exact noPanic_ok _
 
 theorem applyOp_noPanic (hc : indexAllowedClass.isSome = true) (abs : Abs) (env : Env) (pfx : Option PathMsg)
-    (st : SetSt) (op : Op) (h : OvNoNil st.overrides) :
-    NoPanic (applyOp abs env pfx st op) ∧ ∀ st', applyOp abs env pfx st op = .ok st' → OvNoNil st'.overrides := by
-  obtain ⟨g1, g2⟩ := getTargetInfo_noPanic env st (effTarget pfx (opTarget op)) h
+    (st : SetSt) (op : Op) : NoPanic (applyOp abs env pfx st op) := by
   unfold applyOp
   simp only
   split
   · rename_i e he
-    exact ⟨noPanic_of_eq g1 he, by intro st' hs; cases hs⟩
+    exact noPanic_of_eq (getTargetInfo_noPanic env st _) he
   · rename_i st1 ti hg
-    have hov1 := g2 st1 ti hg
     cases op with
     | del p =>
       simp only
-      have h1 := delPath_noPanic ti.plugin pfx p
       split
       · rename_i e he
-        exact ⟨noPanic_of_eq h1 he, by intro st' hs; cases hs⟩
-      · exact ⟨noPanic_ok _, by intro st' hs; cases hs; exact hov1⟩
+        exact noPanic_of_eq (delPath_noPanic ti.plugin pfx p) he
+      · exact noPanic_ok _
     | upd u =>
       simp only
-      have h1 := updEntries_noPanic hc abs ti.plugin pfx u
       split
       · rename_i e he
-        exact ⟨noPanic_of_eq h1 he, by intro st' hs; cases hs⟩
-      · exact ⟨noPanic_ok _, by intro st' hs; cases hs; exact hov1⟩
+        exact noPanic_of_eq (updEntries_noPanic hc abs ti.plugin pfx u) he
+      · exact noPanic_ok _
 
 theorem applyOps_noPanic (hc : indexAllowedClass.isSome = true) (abs : Abs) (env : Env) (pfx : Option PathMsg)
-    (ops : List Op) : ∀ (st : SetSt), OvNoNil st.overrides → NoPanic (applyOps abs env pfx st ops) := by
+    (ops : List Op) : ∀ (st : SetSt), NoPanic (applyOps abs env pfx st ops) := by
   induction ops with
-  | nil => intro st _; exact noPanic_ok _
+  | nil => intro st; exact noPanic_ok _
   | cons op r ih =>
-    intro st h
-    obtain ⟨h1, h2⟩ := applyOp_noPanic hc abs env pfx st op h
+    intro st
     simp only [applyOps]
     split
     · rename_i e he
-      exact noPanic_of_eq h1 he
-    · rename_i st' hs
-      exact ih st' (h2 st' hs)
+      exact noPanic_of_eq (applyOp_noPanic hc abs env pfx st op) he
+    · exact ih _
 
-theorem limitCheck_noPanic (limit : Int) (ts : List (Str × TInfo)) : NoPanic (limitCheck limit ts) := by
+theorem limitCheck_noPanic (limit : Int) (n : Nat) (ts : List (Str × TInfo)) : NoPanic (limitCheck limit n ts) := by
   unfold limitCheck
   split
   · split
@@ -381,6 +341,27 @@ theorem pathsValid_noPanic (hv : validPathClass.isSome = true) : ∀ (ps : List 
     | false => exact noPanic_refused _ _
     | true => exact ih
 
+theorem pathsUsable_noPanic (hv : validPathClass.isSome = true) : ∀ (ps : List Str), NoPanic (pathsUsable ps) := by
+  intro ps
+  induction ps with
+  | nil => exact noPanic_ok _
+  | cons p r ih =>
+    simp only [pathsUsable]
+    have : ∃ b, isPathValid p = .ok b := by
+      unfold isPathValid
+      cases h : validPathClass with
+      | none => rw [h] at hv; cases hv
+      | some cls => exact ⟨_, rfl⟩
+    obtain ⟨b, hb⟩ := this
+    rw [hb]
+    cases b with
+    | false => exact noPanic_refused _ _
+    | true =>
+      simp only
+      split
+      · exact noPanic_refused _ _
+      · exact ih
+
 theorem computeChanges_noPanic (hv : validPathClass.isSome = true) : ∀ (ts : List (Str × TInfo)), NoPanic (computeChanges ts) := by
   intro ts
   induction ts with
@@ -390,7 +371,7 @@ theorem computeChanges_noPanic (hv : validPathClass.isSome = true) : ∀ (ts : L
     simp only [computeChanges]
     have h1 : NoPanic (computeChange ti) := by
       unfold computeChange
-      have := pathsValid_noPanic hv (ti.updates.map Prod.fst ++ ti.removes)
+      have := pathsUsable_noPanic hv (ti.updates.map Prod.fst ++ ti.removes)
       split
       · rename_i e he
         exact noPanic_of_eq this he
@@ -403,10 +384,9 @@ theorem computeChanges_noPanic (hv : validPathClass.isSome = true) : ∀ (ts : L
         exact noPanic_of_eq ih he
       · exact noPanic_ok _
 
-/-- `Set` before the store: no panic, provided the decoded overrides hold no entry without value -/
+/-- `Set` before the store never panics -/
 theorem setPre_noPanic (hc : indexAllowedClass.isSome = true) (hv : validPathClass.isSome = true)
-    (abs : Abs) (env : Env) (req : SetReq)
-    (hov : ∀ ov, findOverrides req.exts = some ov → OvNoNil ov) : NoPanic (setPre abs env req) := by
+    (abs : Abs) (env : Env) (req : SetReq) : NoPanic (setPre abs env req) := by
   unfold setPre
   split
   · exact noPanic_refused _ _
@@ -415,43 +395,33 @@ theorem setPre_noPanic (hc : indexAllowedClass.isSome = true) (hv : validPathCla
     · exact noPanic_refused _ _
     · split
       · exact noPanic_refused _ _
-      · have h1 := applyOps_noPanic hc abs env req.pfx (opsOf req) ⟨[], ov⟩ (hov ov ho)
-        split
+      · split
         · rename_i e he
-          exact noPanic_of_eq h1 he
+          exact noPanic_of_eq (applyOps_noPanic hc abs env req.pfx (opsOf req) ⟨[], ov⟩) he
         · rename_i st _
-          have h2 := limitCheck_noPanic env.limit st.targets
           split
           · rename_i e he
-            exact noPanic_of_eq h2 he
-          · have h3 := computeChanges_noPanic hv st.targets
-            split
+            exact noPanic_of_eq (limitCheck_noPanic env.limit _ st.targets) he
+          · split
             · rename_i e he
-              exact noPanic_of_eq h3 he
+              exact noPanic_of_eq (computeChanges_noPanic hv st.targets) he
             · exact noPanic_ok _
-
 
 /-! ### Get -/
 
-theorem addTarget_noPanic (st : NBState) (ov : OvMap) (t : Str) (h : OvNoNil ov) : NoPanic (addTarget st ov t) := by
+theorem addTarget_noPanic (st : NBState) (ov : OvMap) (t : Str) : NoPanic (addTarget st ov t) := by
   unfold addTarget
   split
   · exact noPanic_refused _ _
   · exact noPanic_refused _ _
-  · split
-    · rename_i e he
-      split at he
-      · rename_i hg
-        exact absurd rfl (h _ (mapGet_some_mem _ _ _ hg))
-      · cases he
-      · cases he
+  · simp only
+    split
+    · exact noPanic_refused _ _
     · split
       · exact noPanic_refused _ _
-      · split
-        · exact noPanic_refused _ _
-        · exact noPanic_ok _
+      · exact noPanic_ok _
 
-theorem getLoop_noPanic (st : NBState) (ov : OvMap) (pfx : Option PathMsg) (h : OvNoNil ov) :
+theorem getLoop_noPanic (st : NBState) (ov : OvMap) (pfx : Option PathMsg) :
     ∀ (ps : List PathMsg) (seen : List Str), NoPanic (getLoop st ov pfx seen ps) := by
   intro ps
   induction ps with
@@ -467,7 +437,7 @@ theorem getLoop_noPanic (st : NBState) (ov : OvMap) (pfx : Option PathMsg) (h : 
         · rename_i e he
           split at he
           · cases he
-          · exact noPanic_of_eq (addTarget_noPanic st ov _ h) he
+          · exact noPanic_of_eq (addTarget_noPanic st ov _) he
         · exact ih _
 
 theorem getRegexps_noPanic (pfx : Option PathMsg) : ∀ (ps : List PathMsg), NoPanic (getRegexps pfx ps) := by
@@ -491,10 +461,8 @@ theorem getState_noPanic (st : NBState) (pfx : Option PathMsg) (ps : List PathMs
     · exact noPanic_ok _
     · exact noPanic_refused _ _
 
-/-- `Get` before the stored values are read: no panic, provided the decoded overrides hold no
-    entry without value -/
-theorem handleGet_noPanic (st : NBState) (req : GetReq)
-    (hov : ∀ ov, findOverrides req.exts = some ov → OvNoNil ov) : NoPanic (handleGet st req) := by
+/-- `Get` before the stored values are read never panics -/
+theorem handleGet_noPanic (st : NBState) (req : GetReq) : NoPanic (handleGet st req) := by
   unfold handleGet
   split
   · exact noPanic_refused _ _
@@ -505,10 +473,9 @@ theorem handleGet_noPanic (st : NBState) (req : GetReq)
       · split
         · exact noPanic_refused _ _
         · rename_i ov ho
-          have hnn := hov ov ho
           split
           · rename_i e he
-            exact noPanic_of_eq (getLoop_noPanic st ov req.pfx hnn _ _) he
+            exact noPanic_of_eq (getLoop_noPanic st ov req.pfx _ _) he
           · exact noPanic_ok _
           · split
             · split
@@ -518,7 +485,7 @@ theorem handleGet_noPanic (st : NBState) (req : GetReq)
                 · split
                   · exact noPanic_refused _ _
                   · rename_i e hne he
-                    exact noPanic_of_eq (addTarget_noPanic st ov _ hnn) he
+                    exact noPanic_of_eq (addTarget_noPanic st ov _) he
                   · obtain ⟨t, ht⟩ := matchWildcardRegexp_total (strPathMsg req.pfx) false
                     rw [ht]
                     exact noPanic_ok _
@@ -619,34 +586,17 @@ theorem leafMerge_noPanic (hc : indexAllowedClass.isSome = true) (hv : validPath
           · exact noPanic_ok _
     · exact noPanic_ok _
 
-theorem leafTail_noPanic (n : Option Nat) (cs : CfgState) (h : cs ≠ .empty) : NoPanic (leafTail n cs) := by
-  unfold leafTail
-  cases n with
-  | none => simp only [Bool.false_eq_true, if_false]; exact noPanic_ok _
-  | some k =>
-    simp only
-    split
-    · cases cs with
-      | empty => exact absurd rfl h
-      | values => exact noPanic_ok _
-      | touched => exact noPanic_ok _
-    · exact noPanic_ok _
-
-/-- `LeafSelectionQuery`: no panic, provided the addressed configuration is not one without
-    committed values (its `Values` map would be nil) -/
+/-- `LeafSelectionQuery` never panics -/
 theorem handleLeafSel_noPanic (hc : indexAllowedClass.isSome = true) (hv : validPathClass.isSome = true)
-    (abs : Abs) (st : NBState) (req : LeafSelReq)
-    (hcfg : mapGet (configID req.target req.type req.version) st.configs ≠ some .empty) :
-    NoPanic (handleLeafSel abs st req) := by
+    (abs : Abs) (st : NBState) (req : LeafSelReq) : NoPanic (handleLeafSel abs st req) := by
   unfold handleLeafSel
   split
   · exact noPanic_refused _ _
-  · rename_i cs hcs
-    split
+  · split
     · exact noPanic_refused _ _
     · split
       · rename_i e he
         exact noPanic_of_eq (leafMerge_noPanic hc hv abs _ _) he
-      · exact leafTail_noPanic _ cs (by intro e; subst e; exact hcfg hcs)
+      · exact noPanic_ok _
 
 end OnosVerif.NB
